@@ -209,6 +209,14 @@ class Env:
         return None, False
 
 
+EXC_CHILDREN = {
+    "LookupError": ("IndexError", "KeyError"),
+    "ArithmeticError": ("ZeroDivisionError", "OverflowError"),
+    "RuntimeError": ("RecursionError", "NotImplementedError"),
+    "ValueError": ("UnicodeError",),
+}
+
+
 class StubModule:
     def __init__(self, name, attrs):
         self._name = name
@@ -397,7 +405,7 @@ class Interp:
             "enum": StubModule("enum", {"Enum": "ENUM_BASE"}),
         }
         self.builtins = {
-            "len": len, "str": self._b_str, "int": int, "range": range,
+            "len": len, "str": str, "int": int, "range": range,
             "list": list, "tuple": tuple, "dict": dict, "set": set,
             "bool": bool, "repr": self._b_repr, "chr": chr, "ord": ord,
             "enumerate": enumerate, "zip": zip, "map": map, "filter": filter,
@@ -407,6 +415,10 @@ class Interp:
             "type": self._b_type, "True": True, "False": False, "None": None,
             "NotImplemented": NotImplemented, "divmod": divmod,
             "float": float, "frozenset": frozenset, "print": lambda *a, **k: None,
+            "complex": complex, "bytes": bytes, "object": object,
+            "slice": slice, "round": round, "pow": pow, "callable": callable,
+            "bin": bin, "hex": hex, "oct": oct, "ascii": ascii,
+            "bytearray": bytearray,
             "dir": self._b_dir, "hasattr": self._b_hasattr,
             "getattr": self._b_getattr,
             "ValueError": "EXC:ValueError", "TypeError": "EXC:TypeError",
@@ -414,6 +426,17 @@ class Interp:
             "IndexError": "EXC:IndexError", "KeyError": "EXC:KeyError",
             "AssertionError": "EXC:AssertionError",
             "NotImplementedError": "EXC:NotImplementedError",
+            "BaseException": "EXC:BaseException",
+            "LookupError": "EXC:LookupError",
+            "ArithmeticError": "EXC:ArithmeticError",
+            "ZeroDivisionError": "EXC:ZeroDivisionError",
+            "OverflowError": "EXC:OverflowError",
+            "AttributeError": "EXC:AttributeError",
+            "SyntaxError": "EXC:SyntaxError",
+            "RecursionError": "EXC:RecursionError",
+            "RuntimeError": "EXC:RuntimeError",
+            "MemoryError": "EXC:MemoryError",
+            "UnicodeError": "EXC:UnicodeError",
         }
 
     # -- module handling -----------------------------------------------------
@@ -873,7 +896,8 @@ class Interp:
         ts = t if isinstance(t, tuple) else (t,)
         for u in ts:
             if isinstance(u, str) and u.startswith("EXC:"):
-                if u[4:] in (name, "Exception"):
+                if u[4:] in (name, "Exception", "BaseException") \
+                        or name in EXC_CHILDREN.get(u[4:], ()):
                     return True
         return False
 
